@@ -796,6 +796,15 @@ class ExcelInPython:
             base_date = datetime.datetime(1899, 12, 30)
             return str((value - base_date).days)
 
+        if isinstance(value, self.EmptyCell):
+            return ''
+
+        if isinstance(value, bool):
+            return 'TRUE' if value else 'FALSE'
+
+        if isinstance(value, float):
+            return str(int(value)) if value.is_integer() else f'{{value:.15g}}'
+
         return str(value)
 
     def _parse_date_formats(self, date: str, format: str):
